@@ -40,13 +40,15 @@ inductive FaultPos where
   deriving DecidableEq, Repr
 
 /-- `handle_rxc` for the frames a Class C device hears on the RXC parameters while it waits for a
-window, in order; `false`: a frame met `Err(NotJoined)` and the front-end gave up there -/
+window, in order.  A frame that meets `Err(NotJoined)` (the device is joining: there is no session it
+could belong to) is taken as `NoUpdate` and the front-end goes on listening; the Boolean (always
+`true` since that repair) says the listening ran to its end -/
 def rxcs (m : MacState) (mp : Nat) : List (RxView × Int) → M (List RxOut × Bool × MacState)
   | [] => pure ([], true, m)
   | (v, snr) :: rest => do
     let (o, m) ← macHandleRx m v mp snr true
     match o with
-    | none => pure ([], false, m)
+    | none => rxcs m mp rest
     | some o =>
       let (os, fin, m) ← rxcs m mp rest
       pure (o :: os, fin, m)
@@ -65,8 +67,7 @@ def closeWindow (cc : Bool) (m : MacState) : M Unit :=
     pure ()
   else pure ()
 
-/-- one window with what precedes it: `none` = the procedure was cut here (radio fault or
-`NotJoined`), `some o` = the window was served with verdict `o`; the outputs of all frames handled
+/-- one window with what precedes it: `none` = the procedure was cut here (radio fault), `some o` = the window was served with verdict `o`; the outputs of all frames handled
 (RXC frames, then the window's frame unless swallowed as `NoUpdate`), the new state -/
 def winC (cc : Bool) (m : MacState) (cs : List (RxView × Int)) (f : Option (RxView × Int)) (mp : Nat)
     (errBefore errAfter : Bool) : M (Option (Option RxOut) × List RxOut × MacState) := do
@@ -82,7 +83,7 @@ inductive ProcEnd where
   | resp (o : RxOut)
   /-- neither did: `rx2_complete` follows -/
   | complete
-  /-- cut short by a radio fault or `NotJoined` -/
+  /-- cut short by a radio fault -/
   | cut
   deriving DecidableEq, Repr
 
